@@ -45,18 +45,24 @@ var gkinds = map[string][]string{
 	"early": {"ok 1", "exec hexit 0", "exec hsleep 50ms p", "ok 4", "mkdir done"},
 	// exits at about the moment the context expires
 	"edge": {"ok 1", "exec hsleep EDGE p", "ok 3"},
+	// terminal input larger than the pty buffer, given to a program that never reads it
+	"ttyblock": {"ok 1", "ttyin big", "exec hpid p 3 20", "ok 3"},
 }
 
 type gcase struct {
 	Scripts    []string `json:"scripts"`
 	DistanceMS int      `json:"distance_ms"`
 	Sequential bool     `json:"sequential"` // one test slot: later scripts start when earlier ones have ended
+	Keep       bool     `json:"keep"`       // WorkdirRoot given (then RunT's own end-of-run bookkeeping is skipped)
 }
 
 func (g gcase) String() string {
 	m := "parallel"
 	if g.Sequential {
 		m = "one-slot"
+	}
+	if g.Keep {
+		m += ", WorkdirRoot"
 	}
 	return fmt.Sprintf("[%s] deadline in %dms, %s", strings.Join(g.Scripts, " "), g.DistanceMS, m)
 }
@@ -71,6 +77,10 @@ func grace(dist time.Duration) time.Duration {
 
 type gobs struct {
 	effects map[string][]string
+	last    map[string]time.Time // time of the script's latest probe line
+	pid     map[string]int
+	sig     map[string]string
+	done    map[string]bool
 	mu      sync.Mutex
 }
 
@@ -93,14 +103,18 @@ func runGrid(root string, g gcase) string {
 	gr := grace(dist)
 	var files []string
 	for i, k := range g.Scripts {
-		lines := append([]string{}, gkinds[k]...)
+		lines := append([]string{"watch"}, gkinds[k]...)
 		for j := range lines {
 			// the edge program sleeps until the moment the context is due to expire
 			lines[j] = strings.Replace(lines[j], "EDGE", (dist - 2*gr).String(), 1)
 		}
-		files = append(files, tsh.WriteScript(dir, fmt.Sprintf("s%d%s.txt", i, k), strings.Join(lines, "\n")+"\n"))
+		text := strings.Join(lines, "\n") + "\n"
+		if k == "ttyblock" {
+			text += "-- big --\n" + strings.Repeat("0123456789abcdef\n", 16*1024)
+		}
+		files = append(files, tsh.WriteScript(dir, fmt.Sprintf("s%d%s.txt", i, k), text))
 	}
-	obs := &gobs{effects: map[string][]string{}}
+	obs := &gobs{effects: map[string][]string{}, last: map[string]time.Time{}, pid: map[string]int{}, sig: map[string]string{}, done: map[string]bool{}}
 	t := tsh.NewT("goexit", false)
 	ended := map[string]time.Time{}
 	var wg sync.WaitGroup
@@ -130,20 +144,58 @@ func runGrid(root string, g gcase) string {
 	start := time.Now()
 	deadline := start.Add(dist)
 	p := testscript.Params{
-		Files:       files,
-		Deadline:    deadline,
-		WorkdirRoot: work,
+		Files:    files,
+		Deadline: deadline,
 		Cmds: map[string]func(ts *testscript.TestScript, neg bool, args []string){
 			"ok": func(ts *testscript.TestScript, neg bool, args []string) {
 				obs.mu.Lock()
 				obs.effects[ts.Name()] = append(obs.effects[ts.Name()], args[0])
+				obs.last[ts.Name()] = time.Now()
 				obs.mu.Unlock()
+			},
+			// watch: at the end of the run (before the work directory goes away) note
+			// the pid file, the signal record and the marker directory
+			"watch": func(ts *testscript.TestScript, neg bool, args []string) {
+				name := ts.Name()
+				wd := ts.MkAbs(".")
+				ts.Defer(func() {
+					obs.mu.Lock()
+					defer obs.mu.Unlock()
+					if data, err := os.ReadFile(filepath.Join(wd, "p")); err == nil {
+						obs.pid[name], _ = strconv.Atoi(strings.TrimSpace(string(data)))
+					}
+					if data, err := os.ReadFile(filepath.Join(wd, "p.sig")); err == nil {
+						obs.sig[name] = string(data)
+					}
+					if _, err := os.Stat(filepath.Join(wd, "done")); err == nil {
+						obs.done[name] = true
+					}
+				})
 			},
 		},
 	}
-	t.RunRoot(func() { testscript.RunT(t, p) })
-	close(gate)
-	wg.Wait()
+	if g.Keep {
+		p.WorkdirRoot = work
+	}
+	// watchdog: a run that is still going long after its deadline is abandoned (its
+	// goroutines stay parked for the rest of the process) and reported
+	allDone := make(chan struct{})
+	go func() {
+		t.RunRoot(func() { testscript.RunT(t, p) })
+		close(gate)
+		wg.Wait()
+		close(allDone)
+	}()
+	select {
+	case <-allDone:
+	case <-time.After(dist + 10*time.Second):
+		for _, k := range g.Scripts {
+			if k == "ttyblock" {
+				return "hang-with-ttyin: RunT is still running 10 s after the deadline: a script gave terminal input larger than the pty buffer (ttyin) to a program that never reads it and blocks; after the program was stopped, exec's clean-up waits for its pty writer forever"
+			}
+		}
+		return "hang: RunT is still running 10 s after the deadline"
+	}
 	finished := time.Now()
 	slack := 3 * time.Second
 	if len(t.Results) != len(g.Scripts) {
@@ -164,11 +216,9 @@ func runGrid(root string, g gcase) string {
 		if res == nil {
 			return "harness: no result for " + name
 		}
-		wd := filepath.Join(work, "script-"+name)
-		pid := 0
-		if data, err := os.ReadFile(filepath.Join(wd, "p")); err == nil {
-			pid, _ = strconv.Atoi(strings.TrimSpace(string(data)))
-		}
+		obs.mu.Lock()
+		pid, sigRec, markerMade, lastProbe := obs.pid[name], obs.sig[name], obs.done[name], obs.last[name]
+		obs.mu.Unlock()
 		if pid > 0 && tsh.PidAlive(pid) {
 			syscall.Kill(pid, syscall.SIGKILL)
 			return fmt.Sprintf("child-left-behind: script %s (%s): its child process %d is still alive after the run", name, k, pid)
@@ -176,10 +226,25 @@ func runGrid(root string, g gcase) string {
 		eff := strings.Join(obs.effects[name], ",")
 		switch {
 		case k == "early":
+			if g.Sequential && i > 0 {
+				// it may legitimately start after the deadline machinery has fired
+				blockedBefore := false
+				for _, kk := range g.Scripts[:i] {
+					if blocking(kk) {
+						blockedBefore = true
+					}
+				}
+				if blockedBefore {
+					break
+				}
+			}
+			if !lastProbe.IsZero() && lastProbe.After(deadline.Add(-2*gr-150*time.Millisecond)) {
+				break // the machine was so slow that the script itself ran into the deadline: inconclusive
+			}
 			if res.Verdict != tsh.Pass || eff != "1,4" {
 				return fmt.Sprintf("early-finisher-affected: script %s finishes long before the deadline but is reported %s, lines run: %s; log:\n%s", name, res.Verdict, eff, res.Log)
 			}
-			if _, err := os.Stat(filepath.Join(wd, "done")); err != nil {
+			if !markerMade {
 				return fmt.Sprintf("early-finisher-affected: script %s did not run to its last line", name)
 			}
 		case k == "edge":
@@ -198,8 +263,8 @@ func runGrid(root string, g gcase) string {
 			if !startedLate && pid > 0 {
 				// timers do not fire early: the interrupt is not delivered before
 				// deadline - 2*grace (minus a small epsilon for clock granularity)
-				if data, err := os.ReadFile(filepath.Join(wd, "p.sig")); err == nil {
-					f := strings.Fields(string(data))
+				if sigRec != "" {
+					f := strings.Fields(sigRec)
 					if ns, err := strconv.ParseInt(f[len(f)-1], 10, 64); err == nil {
 						sigAt := time.Unix(0, ns)
 						if sigAt.Before(deadline.Add(-2*gr - 30*time.Millisecond)) {
@@ -231,17 +296,24 @@ func gridCases(th bool) []gcase {
 	var out []gcase
 	for _, d := range dists {
 		for _, k := range []string{"graceful0", "graceful3", "negated", "stubborn", "early", "edge"} {
-			out = append(out, gcase{[]string{k}, d, false})
+			out = append(out, gcase{[]string{k}, d, false, false})
 		}
 		out = append(out,
-			gcase{[]string{"graceful0", "early"}, d, false},
-			gcase{[]string{"stubborn", "early", "graceful3"}, d, false},
-			gcase{[]string{"edge", "negated"}, d, false},
+			gcase{[]string{"graceful0", "early"}, d, false, false},
+			gcase{[]string{"stubborn", "early", "graceful3"}, d, false, false},
+			gcase{[]string{"edge", "negated"}, d, false, false},
 			// one test slot: the second and third script start when the first was stopped
-			gcase{[]string{"graceful3", "graceful0", "stubborn"}, d, true},
-			gcase{[]string{"early", "negated"}, d, true},
+			gcase{[]string{"graceful3", "graceful0", "stubborn"}, d, true, false},
+			gcase{[]string{"early", "negated"}, d, true, false},
+			gcase{[]string{"early", "early", "early"}, d, true, false},
+			// a chain: every script after the first starts when the deadline machinery has
+			// already fired and must be stopped at once, not after a timeout of its own
+			gcase{[]string{"graceful3", "graceful0", "negated", "graceful0", "graceful3", "graceful0"}, d, true, false},
+			gcase{[]string{"early", "graceful0"}, d, true, true},
+			gcase{[]string{"stubborn", "early"}, d, false, true},
 		)
 	}
+	out = append(out, gcase{[]string{"ttyblock"}, 600, false, false})
 	return out
 }
 
@@ -275,8 +347,16 @@ func realMain() {
 		if c.Kind == "schedule" {
 			return replayX(*c.X)
 		}
-		if v := runGrid(root, *c.Grid); v != "" {
-			return []kit.V{{Key: gclass(v) + " grid=" + c.Grid.String(), What: v, Case: c}}
+		// real clock, real processes: every assertion is one-sided, so a violation seen
+		// on any run is genuine, but it need not show on every run
+		for try := 0; try < 3; try++ {
+			if v := runGrid(root, *c.Grid); v != "" {
+				key := "grid=" + c.Grid.String()
+				if gclass(v) == "hang-with-ttyin" {
+					key = "hang-with-ttyin"
+				}
+				return []kit.V{{Key: key, What: v, Case: c}}
+			}
 		}
 		return nil
 	}
@@ -303,7 +383,11 @@ func realMain() {
 			defer mu.Unlock()
 			if v != "" {
 				gg := g
-				r.Violation(gclass(v)+" grid="+g.String(), fmt.Sprintf("%s: %s", g, v), kase{Kind: "grid", Grid: &gg})
+				key := "grid=" + g.String()
+				if gclass(v) == "hang-with-ttyin" {
+					key = "hang-with-ttyin"
+				}
+				r.Violation(key, fmt.Sprintf("%s: %s (%s)", g, v, gclass(v)), kase{Kind: "grid", Grid: &gg})
 			}
 			lines = append(lines, g.String())
 		}()
